@@ -183,7 +183,10 @@ CHECKS = {
              "subscribers are RTMP, HTTP-FLV, HTTP-TS and HLS sessions (HLS: sub-session mode through the HLS entry point, opened by "
              "the first playlist request, kept alive by requests with the session id, ended by the handler's own once-per-second "
              "sweep after a real 400 ms timeout or a kick; the clients that keep asking are background requests of the driver, "
-             "and a scenario in which one came late is dropped as inconclusive; RTSP players only as DESCRIBE); "
+             "and a scenario in which one came late is dropped as inconclusive; RTSP players only as DESCRIBE - one that hangs up "
+             "again (S3) or one that stays, answered at once or parked, whose description is projected from the s= line of "
+             "the SDP it received (D0 / D1 / D2 next to a relay pull from an RTSP origin; six of these scenarios are paths of "
+             "the model written down by hand)); "
              "notifications are observed at the NotifyHandler interface and, in configurations L4 / P5, as the JSON posts "
              "of lal's own HttpNotify worker at a stub web hook; Tick runs through the verif hook VerifTick (a copy of the "
              "loop body); relay pull / push interleavings are covered by C17 (pull configurations P3 / P4 / P5 and the RTSP-origin twin R3 "
